@@ -76,8 +76,9 @@ def armBody : ExchangeId → SubKind → Option Body
   | .okx, .publicTrades => some ⟨.okx, .publicTrades, .trades⟩                                 -- :527-542
   | _, _ => none                                                                               -- :543-545
 
-/-- A table of arm bodies: `armBody` is the repository's; the theorems hold for every table that satisfies
-`TableOk` and name a concrete violation for tables that do not. -/
+/-- A table of arm bodies: `armBody` is the repository's. The theorems are stated over a table with the
+hypothesis `TableOk` — which only `armBody` satisfies (`Props.C13D.tableOk_unique`): the hypothesis names what the
+proofs use — and name a concrete violation for two tables that do not. -/
 abbrev Table := ExchangeId → SubKind → Option Body
 
 /-- What makes a table of arm bodies right: an arm exists exactly under the patterns C13V reads from the source
@@ -138,7 +139,9 @@ def runArm (tbl : Table) (g : (ExchangeId × SubKind) × List (Subscr ι)) : Exc
   | none => .error (.unsupported g.1.1 g.1.2)
   | some b => if g.2.isEmpty then .error .subscriptionsEmpty else .ok (callOf b g)
 
-/-- The call of the arm a group reaches, where the arm exists. -/
+/-- The call of the arm a group reaches, where the arm exists. (The `getD default` is never taken for a group
+of validated batches under the right table: `Props.C13D.arm_lookup_never_defaults`; likewise the two error
+paths of `runArm` are dead there: `Props.C13D.only_validation_errors`.) -/
 def armCall (tbl : Table) (g : (ExchangeId × SubKind) × List (Subscr ι)) : Call ι :=
   callOf ((tbl g.1.1 g.1.2).getD default) g
 
